@@ -161,3 +161,40 @@ Proof.
     destruct (IH (eb_with_funds b f)) as [A B]. split; [rewrite A; reflexivity|]. rewrite B. reflexivity. }
   destruct (H (eb_new addr)) as [A B]. unfold eb_build, eb_call. simpl. rewrite A, B. reflexivity.
 Qed.
+
+(* ------------------------------------------------------------------------------------------ *)
+(* Cargo features: under EVERY choice of sylvia features the arm of a message kind exists exactly when cosmwasm-std
+   defines the kind - so the match compiles (no arm names a missing variant) and no existing non-custom kind falls
+   into the `_ => Err("Unknown message variant")` arm. Checked by computation over all subsets of the regenerated
+   feature table, lifted to every selection of features. *)
+Lemma filter_in_sublists {A} (sel : A -> bool) (l : list A) : In (filter sel l) (sublists l).
+Proof.
+  induction l as [|x r IH]; simpl; [left; reflexivity|].
+  apply in_or_app. destruct (sel x); [left; apply in_map; exact IH|right; exact IH].
+Qed.
+
+Lemma arms_match_variants_all_subsets : forallb features_agree (sublists feature_names) = true.
+Proof. vm_compute. reflexivity. Qed.
+
+Lemma features_agree_spec F v :
+  features_agree F = true -> In v cosmos_variants -> arm_present F v = variant_present F v.
+Proof.
+  unfold features_agree, arm_present, variant_present, std_enabled. intros H Hv.
+  rewrite forallb_forall in H. specialize (H v Hv). apply Bool.eqb_prop in H. symmetry. exact H.
+Qed.
+
+Lemma arm_present_iff_variant_present (sel : string -> bool) v :
+  In v cosmos_variants ->
+  arm_present (filter sel feature_names) v = variant_present (filter sel feature_names) v.
+Proof.
+  intros Hv.
+  exact (features_agree_spec _ v
+           (proj1 (forallb_forall features_agree (sublists feature_names)) arms_match_variants_all_subsets
+                  (filter sel feature_names) (filter_in_sublists sel feature_names)) Hv).
+Qed.
+
+(* every arm names a variant of the enum, and there is an arm for every variant *)
+Lemma arms_cover_variants :
+  forallb (fun v => memb v (map fst into_msg_arm_features)) cosmos_variants = true /\
+  forallb (fun a => memb a cosmos_variants) (map fst into_msg_arm_features) = true.
+Proof. vm_compute. split; reflexivity. Qed.
